@@ -76,8 +76,32 @@ def quiet():
             logging.disable(logging.NOTSET)
 
 
+class HarnessMismatch(Exception):
+    """the harness itself failed to reach into the code under test (a private name it uses was renamed, a signature it
+    calls changed): an infrastructure problem of the check (exit 2), never an observation about the code's behaviour"""
+
+
+def raised_by_harness(exc):
+    """was `exc` raised by a statement of the harness (not inside jade or a library it calls)?"""
+    tb = getattr(exc, "__traceback__", None)
+    if tb is None:
+        return False
+    while tb.tb_next is not None:
+        tb = tb.tb_next
+    return os.path.abspath(tb.tb_frame.f_code.co_filename).startswith(str(VERIF / "harness") + os.sep)
+
+
+def not_a_harness_mismatch(exc):
+    """AttributeError / TypeError / NameError / ImportError raised by a harness statement = the harness no longer fits the
+    code (renamed private helper, changed call signature).  Injected faults are OSError / Timeout / kills, never these."""
+    if isinstance(exc, (AttributeError, TypeError, NameError, ImportError)) and raised_by_harness(exc):
+        raise HarnessMismatch(f"harness does not fit the code under test: {type(exc).__name__}: {exc}") from exc
+    return exc
+
+
 def err_enum(exc):
     """Map an exception of the implementation to the model's small error enum."""
+    not_a_harness_mismatch(exc)
     n = type(exc).__name__
     table = {
         "AssertionError": "assertion",
